@@ -177,6 +177,11 @@ class Report:
             'violations': len(seen_v),
         }
         ev['coverage'].update(self.notes)
+        if self.errors and not seen_v and (n_ob < 1 or distinct_nt < 2):
+            # every rule stopped on an idiom it does not know: nothing was decided, which is an analysis error and not a verdict
+            for e in self.errors:
+                lines.append('ANALYSIS-ERROR property=%s %s' % (self.prop, e))
+            return 2, lines, ev
         validate_evidence(ev)
         os.makedirs(self.evidence_dir, exist_ok=True)
         with open(os.path.join(self.evidence_dir, '%s.json' % self.prop), 'w') as f:
